@@ -81,6 +81,7 @@ type Machine struct {
 	randCtr    uint64
 	urls       map[string]*urlDecl
 	urlOrigin  map[*value]*urlOrigin
+	c19s       *c19State
 }
 
 func (m *Machine) freshName(prefix string) string {
